@@ -4,8 +4,9 @@ CONSTANTS
   Interleave = FALSE
   SeqParams <- SeqPlain
   Modes = {"Sign", "SignAndEncrypt"}
-  Moves = {"damage"}
+  Moves = {"damage", "inject"}
   Damages <- DamagesAll
+  Injects = {"opn.none", "type.unknown"}
   Budget = 2
   MaxChunks = 0
   Sweeps <- NoSweep
